@@ -17,6 +17,16 @@ is restrained), real `parse_residue_spec`, `find_starting_node_from_spec`, `Anno
 the model's specification side (`specAnnotate`, `specDist`, `specPers`, `renderSpec`, `specStart`,
 `splitSpecB`, `ligRoundTripB`).
 
+Token level (`Model/BuildFileText.lean`, stream `build-text`): generated build-file TEXT (all directives with all
+fields, numerals in several spellings, comments, blank lines, header spellings, section re-entry, optional
+tolerance column, extra columns, templates, volumes, bending, a share of malformed files) is read by the real
+`BuildDirector`; `build_options`, `rw_options`, `topology.distance_restraints`, `topology.persistences`,
+`topology.volumes`, `topology.bending`, the stored templates (centred positions) and the node attributes
+`restraints` / `rw_options` are compared FIELD BY FIELD with the model (floats: the model's exact decimal value,
+correctly rounded, must equal the double the code holds).  Exhaustive sub-streams: `str.split()` on every ASCII
+character, the section machine on every (section, header) pair, `float()`/`int()` on every string of at most four
+characters over `019.+-`.
+
 Candidate findings (confirmed on the real code, see notes/C18_findings.md) are generated only when their
 shape is listed in known_findings.txt or VERIF_C18_CANDIDATES=1.
 """
@@ -34,7 +44,10 @@ RULE = ("random topologies (2-4 molecule types, repeated names in [ molecules ],
         "residue names) x streams: build files (all directive kinds, overlapping/adjacent index and resid "
         "ranges, repeated molecule names, out-of-range blocks), residue specs (all 16 omitted-field shapes + "
         "malformed), -start lists, -split (direct and through gen_coords), -lig (attach/detach with synthetic "
-        "positions, and through gen_coords); distinct = canonical JSON of the case input; trivial = a build "
+        "positions, and through gen_coords), build files as TEXT at token level (every directive and field, numeral "
+        "spellings, comments, header spellings, section re-entry, templates/volumes/bending, ~20% malformed) + "
+        "exhaustive: str.split on all 128 ASCII characters, all (section, header) pairs, all numerals of length "
+        "<= 4 over 019.+-; distinct = canonical JSON of the case input; trivial = a build "
         "file selecting no node / a spec with every field omitted")
 
 CANDIDATES = ["dist-restraint-by-index-ignores-name", "rw-restriction-last-line-wins",
@@ -982,9 +995,491 @@ def e2e_exec(ctx, work, mode, system, kwargs, seed):
                          attached=captured.get("attached")) if ctx.rng.random() < 0.15 else None)
 
 
+
+# ------------------------------------------------------------------------------------------------ F. build-file TEXT
+# (token level: Model/BuildFileText.lean).  Generated build-file text goes through the real BuildDirector; the
+# option tables, the stored templates and the node tags are compared field by field with the model.
+
+import fractions
+import itertools
+
+
+def _dy(rng, lo=-2, hi=9, bits=3):
+    """a dyadic number in [lo, hi] and one of its plain decimal spellings"""
+    scale = 1 << bits
+    num = rng.randint(lo * scale, hi * scale)
+    val = fractions.Fraction(num, scale)
+    text = "%s" % (("%." + str(bits) + "f") % float(val))
+    text = text.rstrip("0") if "." in text else text          # 2.500 -> 2.5, 3.000 -> 3.
+    style = rng.random()
+    if text.endswith("."):
+        text = text + ("0" if style < 0.5 else "") if style < 0.8 else text[:-1]
+    if style > 0.9 and not text.startswith("-"):
+        text = "+" + text
+    elif 0.85 < style <= 0.9:
+        text = text.replace("-", "-0", 1) if text.startswith("-") else "0" + text       # leading zero
+    elif 0.8 < style <= 0.85 and (text.startswith("0.") or text.startswith("-0.")) and len(text.lstrip("-")) > 2:
+        text = text.replace("0.", ".", 1)                                                # .5 / -.5
+    return text
+
+
+def _int_tok(rng, value):
+    roll = rng.random()
+    if roll < 0.08:
+        return "+%d" % value if value >= 0 else "%d" % value
+    if roll < 0.14:
+        return "0%d" % value if value >= 0 else "-0%d" % -value
+    return "%d" % value
+
+
+def _float_int_tok(rng, value):
+    """an integer value written for float(): 3, 3.0, 3., +3"""
+    return rng.choice(["%d", "%d", "%d.0", "%d.", "%d.00"]) % value
+
+
+def _ws(rng):
+    return rng.choice([" ", " ", " ", "  ", "\t", " \t "])
+
+
+def _join(rng, toks):
+    out = toks[0]
+    for tok in toks[1:]:
+        out += _ws(rng) + tok
+    lead = rng.choice(["", "", "", " ", "\t"])
+    tail = rng.choice(["", "", "", " ", " ; a comment", ";x 1 2", " ;"])
+    return lead + out + tail
+
+
+def _header(rng, name):
+    form = rng.choice(["[ %s ]", "[ %s ]", "[ %s ]", "[%s]", "[  %s ]", "[ %s]"])
+    if rng.random() < 0.1:
+        name = name.upper() if rng.random() < 0.5 else name.capitalize()
+    return form % name + rng.choice(["", "", " ; comment", "  "])
+
+
+TEMPLATE_COUNTS = [1, 2, 4]          # centre of geometry of dyadic positions is exact for these atom counts
+
+
+def gen_text(rng, mols, candidates):
+    """(lines, stats): a build file as text.  Mostly well formed, with a small share of malformed lines."""
+    blocks = gen_blocks(rng, mols, candidates)
+    lines, stats = [], dict(malformed=None)
+    # what the DOCUMENTED line formats say the tables must hold (independent of the model and of the translated
+    # field indices): filled for every line written without a deliberate defect
+    expect = dict(options={}, rw={}, dist={}, pers=[], volumes={}, bending={}, templates=[], reject=False)
+
+    def keys_of(block):
+        return ["%s|%d" % (block["name"], i) for i in range(block["lo"], block["hi"])]
+    malformed = rng.random() < 0.22
+    bad_kind = rng.choice(["few", "badnum", "intfloat", "unknown_section", "header", "toplevel", "volumes3", "pers5",
+                           "template_noname", "atoms_after_bonds", "bond_unknown", "data_first", "template_empty"]) \
+        if malformed else None
+    stats["malformed"] = bad_kind
+    if bad_kind == "data_first":
+        lines.append("RA 1 2")
+    tcount = [0]
+
+    def template(resname):
+        tcount[0] += 1
+        natoms = rng.choice(TEMPLATE_COUNTS)
+        names = ["T%d" % tcount[0]] + rng.sample(ATOMNAMES, natoms - 1) if natoms > 1 else ["T%d" % tcount[0]]
+        lines.append(_header(rng, "template"))
+        if bad_kind != "template_noname" or rng.random() < 0.5:
+            lines.append(_join(rng, [rng.choice(["resname", "name", "x"]), resname]))
+        if bad_kind == "template_empty" and rng.random() < 0.5:
+            lines.append(_header(rng, "bonds"))
+            return
+        lines.append(_header(rng, "atoms"))
+        written = {}
+        for name in names:
+            toks = [name, "P", _dy(rng), _dy(rng), _dy(rng)]
+            written[name] = [float(t) for t in toks[2:]]
+            lines.append(_join(rng, toks))
+        if rng.random() < 0.15:                       # a repeated atom name: the later line replaces the attributes
+            toks = [names[0], "P", _dy(rng), _dy(rng), _dy(rng)]
+            written[names[0]] = [float(t) for t in toks[2:]]
+            lines.append(_join(rng, toks))
+        if rng.random() < 0.1:
+            return                                    # no [ bonds ]: the template is dropped (known finding of C15)
+        lines.append(_header(rng, "bonds"))
+        for a, b in zip(names[:-1], names[1:]):
+            lines.append(_join(rng, [a, b]))
+        # the positions written, as vectors from their centre of geometry, under the residue name written
+        expect["templates"].append([resname, _centre([[n, "P", xyz] for n, xyz in written.items()])])
+        if bad_kind == "bond_unknown":
+            lines.append(_join(rng, [names[0], "QQ"]))
+        if bad_kind == "atoms_after_bonds":
+            lines.append(_header(rng, "atoms"))
+            lines.append(_join(rng, ["Z9", "P", "0", "0", "0"]))
+
+    def misc():
+        roll = rng.random()
+        if roll < 0.3:
+            lines.append(_header(rng, "volumes"))
+            for _ in range(rng.randint(1, 3)):
+                toks = [rng.choice(RESNAMES), _dy(rng, 0, 3)]
+                expect["volumes"][toks[0]] = float(toks[1])
+                if bad_kind == "volumes3" and rng.random() < 0.5:
+                    toks.append("1")
+                lines.append(_join(rng, toks))
+        elif roll < 0.45:
+            lines.append(_header(rng, "bending"))
+            for _ in range(rng.randint(1, 2)):
+                toks = [rng.choice(RESNAMES), rng.choice(RESNAMES), rng.choice(RESNAMES), _dy(rng, 0, 40)]
+                expect["bending"]["|".join(toks[:3])] = float(toks[3])
+                lines.append(_join(rng, toks))
+        elif roll < 0.7:
+            template(rng.choice(["RQ", "RQ", "RA", "RS"]))
+        elif roll < 0.75 and bad_kind == "unknown_section":
+            lines.append(_header(rng, "foo"))
+            lines.append("bar 1")
+        elif roll < 0.8 and bad_kind == "toplevel":
+            lines.append(_header(rng, "sphere"))
+            lines.append("RA 1 3 in 1 2 3 4")
+        elif roll < 0.85:
+            lines.append(rng.choice(["", "   ", "; only a comment", "\t"]))
+
+    for block in blocks:
+        if rng.random() < 0.4:
+            misc()
+        lines.append(_header(rng, "molecule"))
+        if rng.random() < 0.1:                         # an earlier data line is replaced by the next one
+            lines.append(_join(rng, ["ZZ", "0", "1"]))
+        mol_toks = [block["name"], _float_int_tok(rng, block["lo"]), _float_int_tok(rng, block["hi"])]
+        if rng.random() < 0.05:
+            mol_toks.append("7")                       # further columns are not looked at
+        lines.append(_join(rng, mol_toks))
+        for line in block["lines"]:
+            kind = line[0]
+            bad = malformed and rng.random() < 0.3
+            if kind == "geometry":
+                geom, nparam = rng.choice(GEOMS)
+                nparam = rng.choice([nparam, nparam, rng.randint(0, 4)])
+                rlo = _float_int_tok(rng, line[2])
+                rhi = _float_int_tok(rng, line[3]) if rng.random() < 0.85 else "%d.5" % line[3]
+                if rng.random() < 0.04:
+                    rlo = "%d.5" % line[2]             # a non-integral start selects no residue
+                toks = [line[1], rlo, rhi, rng.choice(["in", "out", "in", "out", "IN", "sideways"]),
+                        _dy(rng), _dy(rng), _dy(rng)] + [_dy(rng, 0, 6) for _ in range(nparam)]
+                if bad and bad_kind == "few":
+                    toks = toks[:rng.randint(1, 6)]
+                if bad and bad_kind == "badnum":
+                    toks[rng.choice([1, 2, 4, 5, 6])] = rng.choice(["1.x", "--1", "1.2.3", ".", "+", "x"])
+                if not bad:
+                    entry = [toks[0], float(toks[1]), float(toks[2]),
+                             [toks[3], [float(t) for t in toks[4:7]]] + [float(t) for t in toks[7:]] + [geom]]
+                    for key in keys_of(block):
+                        expect["options"].setdefault(key, []).append(entry)
+                lines.append(_header(rng, geom))
+                lines.append(_join(rng, toks))
+            elif kind == "rw":
+                toks = [line[1], _int_tok(rng, line[2]), _int_tok(rng, line[3]), _dy(rng, -1, 1), _dy(rng, -1, 1),
+                        _dy(rng, -1, 1), _dy(rng, 0, 90)]
+                if not bad:
+                    for key in keys_of(block):         # one slot per molecule: assigned
+                        expect["rw"][key] = [toks[0], int(toks[1]), int(toks[2]),
+                                             [[float(t) for t in toks[3:6]], float(toks[6])]]
+                if rng.random() < 0.1:
+                    toks.append("99")                  # further columns are not looked at
+                if bad and bad_kind == "intfloat":
+                    toks[rng.choice([1, 2])] += ".0"   # int() does not read 3.0
+                if bad and bad_kind == "few":
+                    toks = toks[:rng.randint(1, 6)]
+                lines.append(_header(rng, "rw_restriction"))
+                lines.append(_join(rng, toks))
+            elif kind == "dist":
+                toks = [_int_tok(rng, line[1]), _int_tok(rng, line[2]), _dy(rng, 0, 9)]
+                roll = rng.random()
+                if roll < 0.5:
+                    toks.append(_dy(rng, 0, 1))
+                elif roll < 0.6:
+                    toks += [_dy(rng, 0, 1), "5"]      # five columns: the tolerance column is NOT read
+                if line[2] == 99:
+                    expect["reject"] = True            # no such node: the file must be rejected
+                elif not bad:
+                    for key in keys_of(block):         # the optional fourth column is the tolerance
+                        pair = "%d|%d" % (int(toks[0]), int(toks[1]))
+                        # five columns are not a documented format: what the tolerance is then is not judged
+                        expect["dist"].setdefault(key, {})[pair] = \
+                            [float(toks[2]), (float(toks[3]) if len(toks) == 4 else 0.0) if len(toks) <= 4 else None]
+                if bad and bad_kind == "intfloat":
+                    toks[rng.choice([0, 1])] += ".0"
+                if bad and bad_kind == "few":
+                    toks = toks[:rng.randint(1, 2)]
+                lines.append(_header(rng, "distance_restraints"))
+                lines.append(_join(rng, toks))
+            else:
+                toks = [rng.choice(["WCM", "WCM", "XX"]), _dy(rng, 0, 9), _int_tok(rng, line[1]), _int_tok(rng, line[2])]
+                if not bad:
+                    expect["pers"].append([[toks[0], float(toks[1]), int(toks[2]), int(toks[3])],
+                                           list(range(block["lo"], block["hi"]))])
+                if bad and bad_kind == "pers5":
+                    toks.append("3")
+                if bad and bad_kind == "few":
+                    toks = toks[:rng.randint(1, 3)]
+                lines.append(_header(rng, "persistence_length"))
+                lines.append(_join(rng, toks))
+            if rng.random() < 0.08:
+                lines.append(_header(rng, "molecule"))   # header without a data line: the block stays current
+        if bad_kind == "header" and rng.random() < 0.5:
+            lines.append("[ volumes")
+    for _ in range(rng.randint(0, 2)):
+        misc()
+    if bad_kind is None:
+        stats["expect"] = expect
+    return lines, stats
+
+
+def _f(x):
+    return float(x)
+
+
+def _r9(x):
+    """template positions are vectors from a centre of geometry (a division by the number of atoms): compared
+    after rounding to 1e-9 (the values are multiples of 1/(8 n), far from every rounding boundary)"""
+    return round(float(x), 9) + 0.0
+
+
+def _canon_params(params):
+    out = []
+    for item in params:
+        if isinstance(item, str):
+            out.append(item)
+        elif hasattr(item, "__len__"):
+            out.append([_f(x) for x in item])
+        else:
+            out.append(_f(item))
+    return out
+
+
+def _mq(text):
+    """a model rational ("num/den") as the correctly rounded double"""
+    return float(fractions.Fraction(text))
+
+
+def _model_params(params):
+    return [p if not isinstance(p, list) and _is_name(p) else ([_mq(x) for x in p] if isinstance(p, list) else _mq(p))
+            for p in params]
+
+
+def _is_name(text):
+    try:
+        fractions.Fraction(text)
+        return False
+    except (ValueError, ZeroDivisionError):
+        return True
+
+
+def _model_geom(g):
+    return [g[0], _mq(g[1]), _mq(g[2]), _model_params(g[3])]
+
+
+def _model_rw(d):
+    return [d[0], int(d[1]), int(d[2]), [[_mq(x) for x in d[3][0]], _mq(d[3][1])]]
+
+
+def text_exec(work, system, lines, expect=None):
+    from polyply.src.build_file_parser import BuildDirector
+    topology, _ = work.load(system)
+    mols = mols_json(topology)
+    replay = dict(stream="build-text", system=system, lines=lines, expect=expect)
+    vol_names = set(RESNAMES)
+    volumes0 = [[str(k), common.rat_str(v)] for k, v in topology.volumes.items()]
+    oracle = []          # per finished template: (graph hash, size stored under it right afterwards)
+    try:
+        director = BuildDirector(topology.molecules, topology)
+        orig_finalize_section = director.finalize_section
+
+        def watched(previous_section, ended_section):
+            before = {k: len(v) for k, v in director.resnames_to_hash.items()}
+            result = orig_finalize_section(previous_section, ended_section)
+            for resname, hashes in director.resnames_to_hash.items():
+                if len(hashes) > before.get(resname, 0):          # a template was stored: its hash was appended
+                    oracle.append([str(hashes[-1]), common.rat_str(topology.volumes[hashes[-1]])])
+            return result
+        director.finalize_section = watched
+        list(director.parse(iter(lines)))
+        options = sorted([str(k[0]), int(k[1]), [[o["resname"], _f(o["start"]), _f(o["stop"]), _canon_params(o["parameters"])]
+                                                 for o in v]] for k, v in director.build_options.items() if v)
+        rws = sorted([str(k[0]), int(k[1]), [o["resname"], int(o["start"]), int(o["stop"]),
+                                             [[_f(x) for x in o["parameters"][0]], _f(o["parameters"][1])]]]
+                     for k, o in director.rw_options.items())
+        dist = sorted([str(k[0]), int(k[1]), sorted([int(ab[0]), int(ab[1]), [_f(v[0]), _f(v[1])]] for ab, v in inner.items())]
+                      for k, inner in topology.distance_restraints.items() if inner)
+        pers = [[[str(p.model), _f(p.lp), int(p.start), int(p.stop)], [int(i) for i in p.mol_idxs]]
+                for p in topology.persistences]
+        volumes = sorted([str(k), _f(v)] for k, v in topology.volumes.items() if k in vol_names)
+        bending = sorted([str(k[0]), str(k[1]), str(k[2]), _f(v)] for k, v in topology.bending.items())
+        templates = []
+        for resname, hashes in director.resnames_to_hash.items():
+            for graph_hash in hashes:
+                coords = director.templates[graph_hash]
+                templates.append([str(resname), sorted([str(n), [_r9(x) for x in c]] for n, c in coords.items())])
+        ann = []
+        for i, mol in enumerate(topology.molecules):
+            for key in mol.nodes:
+                data = mol.nodes[key]
+                ann.append([i, int(key), [_canon_params(p) for p in data.get("restraints", [])],
+                            [[[_f(x) for x in p[0]], _f(p[1])] for p in data.get("rw_options", [])]])
+        shared = all(mol.templates is director.templates for mol in topology.molecules)
+        impl = dict(ok=True, options=options, rw=rws, dist=dist, pers=pers, volumes=volumes, bending=bending,
+                    templates=sorted(templates), ann=ann, templates_handed_to_every_molecule=shared)
+        sizes = dict(volumes=sorted([str(k), _f(v)] for k, v in topology.volumes.items()),
+                     templates=sorted([str(h), sorted([str(n), [_r9(x) for x in c]] for n, c in t.items())]
+                                      for h, t in director.templates.items()))
+    except Exception as err:  # pylint: disable=broad-except
+        impl = dict(ok=False, err=type(err).__name__)
+        sizes = None
+    reqs = [dict(op="build_text", mols=mols, lines=lines)]
+    if sizes is not None:
+        # C15's precedence model (Model/Templates.lean) fed from the TEXT; hash and compute_volume are oracles
+        reqs.append(dict(op="build_text_sizes", lines=lines, volumes0=volumes0, oracle=oracle))
+    return dict(kind="text", replay=replay, impl=impl, mols=mols, reqs=reqs, sizes=sizes)
+
+
+def text_case(work, rng, candidates):
+    system = gen_system(rng, ligand=rng.random() < 0.2, min_res=rng.choice([1, 2, 3]))
+    lines, stats = gen_text(rng, system_mols(system), candidates)
+    case = text_exec(work, system, lines, stats.get("expect"))
+    case["stats"] = stats
+    return case
+
+
+def _centre(atoms):
+    """map_from_CoG on exact rationals: [name, [coords]]"""
+    n = len(atoms)
+    cog = [sum(fractions.Fraction(a[2][d]) for a in atoms) / n for d in range(3)]
+    return sorted([a[0], [_r9(fractions.Fraction(a[2][d]) - cog[d]) for d in range(3)]] for a in atoms)
+
+
+def judge_text(ctx, case, answers):
+    model = answers[0]
+    impl, replay = case["impl"], case["replay"]
+    stats = case.get("stats", {})
+    if not model["ok"] and model.get("err", "").startswith("outside-model"):
+        ctx.tally(text_outside_model=model["err"])
+        ctx.case(None, stream="build-text")
+        return
+    if model["ok"]:
+        want = dict(
+            ok=True,
+            options=sorted([k[0], k[1], [_model_geom(g) for g in k[2]]] for k in model["options"]),
+            rw=sorted([k[0], k[1], _model_rw(k[2])] for k in model["rw"]),
+            dist=sorted([k[0], k[1], sorted([e[0], e[1], [_mq(e[2][0]), _mq(e[2][1])]] for e in k[2])] for k in model["dist"]),
+            pers=[[[p[0][0], _mq(p[0][1]), int(p[0][2]), int(p[0][3])], p[1]] for p in model["pers"]],
+            volumes=sorted([v[0], _mq(v[1])] for v in model["volumes"] if v[0] in RESNAMES),
+            bending=sorted([b[0], b[1], b[2], _mq(b[3])] for b in model["bending"]),
+            templates=sorted([t[0], _centre(t[1])] for t in model["templates"]),
+            ann=[[a[0], a[1], [_model_geom(g)[3] for g in a[2]], [_model_rw(d)[3] for d in a[3]]] for a in model["ann"]],
+            templates_handed_to_every_molecule=True)
+    else:
+        want = dict(ok=False)
+    got = dict(impl) if impl["ok"] else dict(ok=False)
+    ctx.correspond("build-file-text", got, want, replay)
+    if case.get("sizes") is not None and len(answers) > 1:
+        msizes = answers[1]
+        want_sizes = dict(volumes=sorted([v[0], _mq(v[1])] for v in msizes["volumes"]),
+                          templates=sorted([t[0], sorted([a[0], [_r9(_mq(x)) for x in a[1]]] for a in t[1])]
+                                           for t in msizes["templates"])) if msizes["ok"] else dict(ok=False)
+        ctx.correspond("build-file-text-sizes", case["sizes"], want_sizes, replay)
+    tagged_nodes = 0
+    if impl["ok"] and model["ok"]:
+        spec = [[a[0], a[1], [_model_geom(g)[3] for g in a[2]], [_model_rw(d)[3] for d in a[3]]] for a in model["spec_ann"]]
+        tagged_nodes = sum(1 for a in spec if a[2] or a[3])
+        reported = set()
+        for pos, (got_a, want_a) in enumerate(zip(impl["ann"], spec)):
+            if got_a[2] != want_a[2] and "restraint-selection" not in reported:
+                reported.add("restraint-selection")
+                ctx.oracle_fail("restraint-selection", "node %d of molecule %d carries restraints %s, the build file "
+                                "selects %s; file:\n%s" % (got_a[1], got_a[0], got_a[2], want_a[2], "\n".join(replay["lines"])),
+                                replay)
+            if got_a[3] != want_a[3]:
+                known = got_a[3] == want["ann"][pos][3]
+                shape = "rw-restriction-last-line-wins" if known else "rw-selection"
+                if shape not in reported:
+                    reported.add(shape)
+                    ctx.oracle_fail(shape, "node %d of molecule %d carries rw_options %s, the build file selects %s; "
+                                    "file:\n%s" % (got_a[1], got_a[0], got_a[3], want_a[3], "\n".join(replay["lines"])), replay)
+    expect = replay.get("expect")
+    if expect is not None:
+        text = "\n".join(replay["lines"])
+        if expect["reject"]:
+            if impl["ok"]:
+                ctx.oracle_fail("build-text-accepts-missing-node", "a [ distance_restraints ] line names node 99, which "
+                                "no molecule has, and the file is accepted:\n%s" % text, replay)
+        elif not impl["ok"]:
+            ctx.oracle_fail("build-text-rejects-documented-file", "a build file that follows the documented line "
+                            "formats is rejected (%s):\n%s" % (impl.get("err"), text), replay)
+        else:
+            have = dict(
+                options={"%s|%d" % (k[0], k[1]): k[2] for k in impl["options"]},
+                rw={"%s|%d" % (k[0], k[1]): k[2] for k in impl["rw"]},
+                dist={"%s|%d" % (k[0], k[1]): {"%d|%d" % (e[0], e[1]): e[2] for e in k[2]} for k in impl["dist"]},
+                pers=impl["pers"], volumes={v[0]: v[1] for v in impl["volumes"]},
+                bending={"|".join(b[:3]): b[3] for b in impl["bending"]}, templates=impl["templates"])
+            expect["templates"] = sorted(expect.get("templates", []))
+            for key, inner_t in expect["dist"].items():
+                for pair, val in inner_t.items():
+                    if val[1] is None and pair in have["dist"].get(key, {}):
+                        val[1] = have["dist"][key][pair][1]
+            for table in ("options", "rw", "dist", "pers", "volumes", "bending", "templates"):
+                want_t = expect[table]
+                if table in ("options", "dist"):
+                    want_t = {k: v for k, v in want_t.items() if v}
+                if have[table] != want_t:
+                    ctx.oracle_fail("build-text-fields-" + table, "the %s table after reading the file is %s, the "
+                                    "documented line formats say %s; file:\n%s"
+                                    % (table, json.dumps(have[table])[:700], json.dumps(want_t)[:700], text), replay)
+                    break
+    rich = impl["ok"] and (tagged_nodes or impl["templates"] or impl["dist"] or impl["volumes"])
+    ctx.case(json.dumps([replay["system"], replay["lines"]], sort_keys=True) if rich or not impl["ok"] else None,
+             sample=dict(build_file=replay["lines"], options=impl.get("options"), templates=impl.get("templates"))
+             if rich and ctx.rng.random() < 0.02 else None,
+             stream="build-text", text_ok=impl["ok"], text_malformed=stats.get("malformed"),
+             text_templates=min(len(impl.get("templates", [])), 3))
+
+
+def text_exhaustive(ctx):
+    """small finite domains, enumerated completely: (1) every ASCII character as a separator candidate of
+    `line.split()`; (2) every (registered section, header) pair of the section machine; (3) every string of at most
+    four characters over `019.+-` through float() and int()."""
+    from polyply.src.build_file_parser import BuildDirector
+    texts = ["a%sb" % chr(c) for c in range(128)] + [" %sa" % chr(c) for c in range(128)]
+    paths = sorted(set(tuple(k) for k in BuildDirector.METH_DICT))
+    lasts = sorted(set(p[-1] for p in paths)) + ["foo", "atoms bonds", ""]
+    queries = [[list(cur), "[ %s ]" % h] for cur in [()] + paths + [("foo",), ("molecule", "foo")] for h in lasts]
+    toks = ["".join(t) for n in range(1, 5) for t in itertools.product("019.+-", repeat=n)]
+    ans = ctx.driver.ask([dict(op="tokens", texts=texts), dict(op="sections", queries=queries), dict(op="numbers", toks=toks)])
+    for text, mtoks in zip(texts, ans[0]["tokens"]):
+        ctx.correspond("build-file-text:split", text.split(), mtoks, dict(stream="text-split", text=text))
+    ctx.tally(text_split_ascii_exhaustive=len(texts))
+    for (cur, header), (msec, mknown) in zip(queries, ans[1]["sections"]):
+        director = BuildDirector([], None)
+        director.finalize_section = lambda *a, **k: None
+        director.section = list(cur)
+        director.parse_header(header)
+        ctx.correspond("build-file-text:sections", [list(director.section), tuple(director.section) in director.METH_DICT],
+                       [msec, mknown], dict(stream="text-sections", cur=cur, header=header))
+    ctx.tally(text_sections_exhaustive=len(queries))
+    for tok, (mfloat, mint) in zip(toks, ans[2]["values"]):
+        try:
+            pfloat = float(tok)
+        except ValueError:
+            pfloat = None
+        try:
+            pint = int(tok)
+        except ValueError:
+            pint = None
+        ctx.correspond("build-file-text:numbers", [pfloat, pint],
+                       [None if mfloat is None else _mq(mfloat), None if mint is None else int(mint)],
+                       dict(stream="text-numbers", token=tok))
+    ctx.tally(text_numbers_exhaustive=len(toks))
+    ctx.case(("text-exhaustive", len(texts), len(queries), len(toks)), stream="build-text-exhaustive")
+
+
 # ------------------------------------------------------------------------------------------------ run
 
-JUDGES = dict(build=judge_build, start=judge_start, split=judge_split, lig=judge_lig)
+JUDGES = dict(build=judge_build, start=judge_start, split=judge_split, lig=judge_lig, text=judge_text)
 
 
 def run_batch(ctx, cases):
@@ -1022,6 +1517,10 @@ def replay_inputs(ctx, work, inputs):
                                 % (inp["spec"], inp["text"], impl), inp)
         elif stream == "build":
             cases.append(build_exec(work, inp["system"], inp["blocks"], inp["text"]))
+        elif stream == "build-text":
+            cases.append(text_exec(work, inp["system"], inp["lines"], inp.get("expect")))
+        elif stream.startswith("text-"):
+            text_exhaustive(ctx)
         elif stream == "start":
             cases.append(start_exec(work, inp["system"], inp["specs"]))
         elif stream == "split":
@@ -1040,6 +1539,13 @@ def run(ctx):
         "parameters of build-file lines back to line identifiers",
         "np.arange(lo, hi) on integer tokens is modelled as List.range'; float()/int() of specification numbers "
         "are modelled on plain decimal digit strings only",
+        "token level: vermouth's LineParser/SectionLineParser (comment splitting, header recognition, pop(-2) section "
+        "resolution) is MODELLED (Model/BuildFileText.lean) and tied by the exhaustive section stream; float() is "
+        "modelled on [+-]?(digits[.digits*]|.digits) with the exact decimal value (the harness rounds it correctly "
+        "to a double); exponents, inf/nan, '_' in numerals, '$' macros and the inherited [ macros ] section, "
+        "negative or non-integral molecule indices, negative node ids and template positions that are not 3D are "
+        "outside the model; the graph hash of a template is not modelled (generated templates have pairwise "
+        "different atom-name sets)",
     ]
     ctx.assumptions.append("numbers in build files and specifications are non-negative decimal integers")
     ctx.assumptions.append("residues of one molecule have distinct resids (standard GROMACS topologies)")
@@ -1050,9 +1556,12 @@ def run(ctx):
     try:
         replay_inputs(ctx, work, corpus_inputs())
         spec_cases(ctx, rng)
+        text_exhaustive(ctx)
         cases = []
         for _ in range(ctx.budget(200, 2200)):
             cases.append(build_case(work, rng, candidates))
+        for _ in range(ctx.budget(160, 2000)):
+            cases.append(text_case(work, rng, candidates))
         for _ in range(ctx.budget(120, 1500)):
             cases.append(start_case(work, rng, candidates))
         for _ in range(ctx.budget(100, 1000)):
